@@ -178,6 +178,32 @@ def worker(shard):
                 for rest in itertools.product(ALPHA15, repeat=k):
                     check_prefix(mido, head + rest, msgs, encs, acc)
         acc.sample({'P': hexs(head or (0x90, 1)), 'M': hexs(encs[9])}, cap=1)
+    elif kind == 'allmsgs':
+        # EVERY valid non-sysex message M: alone, after a message cut short
+        # and inside an open sysex
+        type_, ch = shard[1], shard[2]
+        n = 0
+        for attrs in ref.all_messages_of(type_, channel=ch):
+            enc = ref.encode(type_, attrs)
+            want = [('Message', tuple(sorted(dict(attrs, type=type_,
+                                                  time=0).items())))]
+            n += 1
+            acc.evals += 1
+            acc.nontrivial += 1
+            for P in ((), (0x91, 0x01), (0xF0, 0x05)):
+                try:
+                    got = sigs(_parse(mido, P + tuple(enc)))
+                except Exception as e:
+                    got = repr(e)
+                if got != want:
+                    acc.violation(f'resync-all/{type_}',
+                                  f'parse_all({hexs(P)} | {hexs(enc)}) = {got}; '
+                                  f'expected exactly {type_} {attrs}',
+                                  {'kind': 'prefix', 'P': list(P),
+                                   'M': list(enc)})
+                    break
+        acc.sample({'every_message_of': type_, 'channel': ch, 'count': n},
+                   cap=1)
     elif kind == 'concat':
         first = msgs[shard[1]]
         check_concat(mido, (first,), acc)
@@ -264,6 +290,13 @@ def run():
                    | {1000, 9999, 10000, 10001, 65000, 100000})
     shards += [('long', n) for n in longs]
     shards.append(('longprefix',))
+    for t in ref.TYPES:
+        if t == 'sysex':
+            continue
+        if t in ref.CHANNEL:
+            shards += [('allmsgs', t, ch) for ch in range(16)]
+        else:
+            shards.append(('allmsgs', t, None))
     rep.coverage['long_sysex_payload_lengths'] = longs
     run_shards(worker, shards, rep)
     rep.coverage['exhaustive'] = True
